@@ -24,7 +24,8 @@ func (c *Ctx) checkPins(f *FC, rule string, pins []pin) {
 	for _, p := range pins {
 		switch p.kind {
 		case "nf":
-			c.expectNF(f, rule, p.fn, []string{p.want}, p.why)
+			// " ||| " separates equally accepted spellings of the same specification
+			c.expectNF(f, rule, p.fn, strings.Split(p.want, " ||| "), p.why)
 		case "ksnf":
 			// normal form with cell identity kept (hand-written imperative emitters)
 			fn, ok := f.Prog.ByName[p.fn]
